@@ -538,6 +538,7 @@ public:
     /// \brief Inserts count copies of character ch at the position index.
     constexpr auto insert(size_type const index, size_type const count, Char const ch) noexcept -> basic_inplace_string&
     {
+        TETL_PRECONDITION(index <= size());
         for (size_type i = 0; i < count; ++i) {
             insert_impl(begin() + index, &ch, 1);
         }
@@ -548,6 +549,7 @@ public:
     /// position index.
     constexpr auto insert(size_type const index, const_pointer s) noexcept -> basic_inplace_string&
     {
+        TETL_PRECONDITION(index <= size());
         insert_impl(begin() + index, s, traits_type::length(s));
         return *this;
     }
@@ -557,6 +559,7 @@ public:
     constexpr auto insert(size_type const index, const_pointer s, size_type const count) noexcept
         -> basic_inplace_string&
     {
+        TETL_PRECONDITION(index <= size());
         insert_impl(begin() + index, s, count);
         return *this;
     }
@@ -564,6 +567,7 @@ public:
     /// \brief Inserts string str at the position index.
     constexpr auto insert(size_type const index, basic_inplace_string const& str) noexcept -> basic_inplace_string&
     {
+        TETL_PRECONDITION(index <= size());
         insert_impl(begin() + index, str.data(), str.size());
         return *this;
     }
@@ -577,6 +581,7 @@ public:
         size_type const count = npos
     ) noexcept -> basic_inplace_string&
     {
+        TETL_PRECONDITION(index <= size());
         using view_type = basic_string_view<Char, traits_type>;
         auto sv         = view_type(str).substr(indexStr, count);
         insert_impl(begin() + index, sv.data(), sv.size());
@@ -617,6 +622,7 @@ public:
         requires string_view_like<StringView>
     constexpr auto insert(size_type const pos, StringView const& view) noexcept -> basic_inplace_string&
     {
+        TETL_PRECONDITION(pos <= size());
         basic_string_view<Char, traits_type> sv = view;
         insert_impl(begin() + pos, sv.data(), sv.size());
         return *this;
@@ -631,6 +637,7 @@ public:
     insert(size_type const index, StringView const& view, size_type const indexStr, size_type const count = npos)
         noexcept -> basic_inplace_string&
     {
+        TETL_PRECONDITION(index <= size());
         basic_string_view<Char, traits_type> sv = view;
 
         auto sub = sv.substr(indexStr, count);
